@@ -355,11 +355,14 @@ class LDAPSession:
                 f"LDAP session is BINDING, can only send a BindRequest, BindResponse, or UnbindRequest not {type(msg).__name__}"
             )
 
-        elif self.state == SessionState.BEFORE_OPEN:
+        # Pack first so a message that fails to encode leaves the session as is.
+        data = msg.pack(self._packing_options)
+
+        if self.state == SessionState.BEFORE_OPEN:
             self.state = SessionState.OPENED
 
         self._validate_send(msg)
-        self._outgoing_buffer.extend(msg.pack(self._packing_options))
+        self._outgoing_buffer.extend(data)
 
         return msg.message_id
 
